@@ -534,6 +534,118 @@ fn pow_ok(a: &Val, b: &Val) -> bool {
         _ => true,
     }
 }
+/// build a finite float from sign, 53-bit-or-less integer significand and power of two (exact)
+fn mkf(neg: bool, sig: u64, exp: i32) -> u64 {
+    // sig * 2^exp computed exactly by two multiplications by powers of two (each exact or, when the
+    // result leaves the range, correctly rounded by the hardware; generators only need *some* float)
+    let mut v = sig as f64; // exact for sig < 2^53
+    let mut e = exp;
+    while e > 1000 {
+        v *= (2.0f64).powi(1000);
+        e -= 1000;
+    }
+    while e < -1000 {
+        v *= (2.0f64).powi(-1000);
+        e += 1000;
+    }
+    v *= (2.0f64).powi(e);
+    (if neg { -v } else { v }).to_bits()
+}
+/// operand pairs aimed at the rounding boundaries of IEEE + - * / : ties, near-ties, carries into the
+/// next binade, cancellation, subnormal results, underflow to zero, overflow to infinity, signed
+/// zeros, infinities and NaN
+fn float_pair(rng: &mut Rng, pools: &Pools) -> (u64, u64) {
+    let neg = |rng: &mut Rng| rng.chance(1, 2);
+    let sig53 = |rng: &mut Rng| (1u64 << 52) | (rng.next() >> 12);
+    match rng.below(16) {
+        0 => {
+            // a + half an ulp (exact tie), both parities of a
+            let e = rng.range(-1070, 960) as i32;
+            let a = sig53(rng);
+            let same = rng.chance(1, 2);
+            let na = neg(rng);
+            (mkf(na, a, e), mkf(if same { na } else { !na }, 1, e - 1))
+        }
+        1 => {
+            // a + (half an ulp +- a little): just above / below the tie
+            let e = rng.range(-1000, 960) as i32;
+            let a = sig53(rng);
+            let d = ((1i64 << 30) + rng.range(-1, 1)) as u64;
+            let na = neg(rng);
+            (mkf(na, a, e), mkf(if rng.chance(1, 2) { na } else { !na }, d, e - 31))
+        }
+        2 => {
+            // around a power of two: the spacing changes (2^k - quarter ulp etc.)
+            let e = rng.range(-1000, 960) as i32;
+            let a = if rng.chance(1, 2) { 1u64 << 52 } else { (1u64 << 53) - 1 };
+            let na = neg(rng);
+            (mkf(na, a, e), mkf(neg(rng), 1 + rng.below(7), e - 3))
+        }
+        3 => {
+            // close exponents, random significands: alignment shifts of 0..60 bits, cancellation
+            let e = rng.range(-1074, 960) as i32;
+            let d = rng.range(0, 60) as i32;
+            (mkf(neg(rng), sig53(rng), e + d), mkf(neg(rng), sig53(rng), e))
+        }
+        4 => {
+            // products / quotients of full significands (106-bit exact products)
+            let e1 = rng.range(-600, 500) as i32;
+            let e2 = rng.range(-600, 500) as i32;
+            (mkf(neg(rng), sig53(rng), e1), mkf(neg(rng), sig53(rng), e2))
+        }
+        5 => {
+            // odd significand times k/2, k/4: ties of the product, also in the subnormal range
+            let k = *rng.pick(&[1u64, 3, 5, 7, 9, 11]);
+            let e = rng.range(-1074, 900) as i32;
+            let a = if rng.chance(1, 3) { 1 + 2 * rng.below(8) } else { sig53(rng) | 1 };
+            (mkf(neg(rng), a, e), mkf(neg(rng), k, -(1 + rng.below(2) as i32)))
+        }
+        6 => {
+            // results in or near the subnormal range
+            let e1 = rng.range(-1074, -500) as i32;
+            let e2 = -1074 - 52 - e1 + rng.range(-60, 60) as i32;
+            (mkf(neg(rng), sig53(rng), e1), mkf(neg(rng), sig53(rng), e2 - 52))
+        }
+        7 => {
+            // results at the overflow threshold: MAX + 2^970 (tie -> inf), MAX + 2^969, products near 2^1024
+            let max = f64::MAX.to_bits();
+            let b = *rng.pick(&[mkf(false, 1, 970), mkf(false, 1, 969), mkf(false, 3, 968), mkf(false, (1 << 53) - 1, 917), max, mkf(false, 1, 971)]);
+            let s = neg(rng);
+            (max | ((s as u64) << 63), b | ((s as u64) << 63))
+        }
+        8 => {
+            let e1 = rng.range(400, 971) as i32;
+            let e2 = 971 - e1 + rng.range(-3, 3) as i32;
+            (mkf(neg(rng), sig53(rng), e1), mkf(neg(rng), sig53(rng), e2 - 52))
+        }
+        9 => {
+            // subnormal operands
+            (rng.below(1 << 52) | ((neg(rng) as u64) << 63), if rng.chance(1, 2) { rng.below(1 << 52) } else { pools.float(rng) })
+        }
+        10 => {
+            // x and -x, x and x: exact zero sums, sign of zero
+            let a = pools.float(rng);
+            (a, if rng.chance(1, 2) { a ^ (1 << 63) } else { a })
+        }
+        11 => {
+            // zeros, infinities, NaN against anything
+            let sp = [0u64, 1 << 63, f64::INFINITY.to_bits(), f64::NEG_INFINITY.to_bits(), f64::NAN.to_bits(), 0xfff8_0000_0000_0001];
+            let a = *rng.pick(&sp);
+            let b = if rng.chance(1, 2) { *rng.pick(&sp) } else { pools.float(rng) };
+            if rng.chance(1, 2) { (a, b) } else { (b, a) }
+        }
+        12 => {
+            // small integers and simple fractions (1/3, 1/10 ...)
+            ((rng.range(-50, 50) as f64).to_bits(), (rng.range(-50, 50) as f64).to_bits())
+        }
+        13 => {
+            // division with a short divisor: repeating binary expansions
+            (mkf(neg(rng), sig53(rng), rng.range(-1074, 900) as i32), mkf(neg(rng), 1 + 2 * rng.below(50), rng.range(-60, 60) as i32))
+        }
+        _ => (pools.float(rng), pools.float(rng)),
+    }
+}
+
 fn pow_ok_obj(a: &VO, b: &VO) -> bool {
     let xs: Vec<&Val> = match a {
         VO::Num(v) => vec![v],
@@ -591,7 +703,9 @@ fn main() {
                 ways (literal, ^1, unreduced n*k/d*k, negative denominator, rational(n), bits_to_float, \
                 mkc) x operators + - * / % // %% ^ and neg floor ceil round int rational float \
                 numerator denominator x shapes (scalar, vectors of length 0-4 of mixed levels, \
-                mismatched lengths, non-numbers); a case is non-trivial unless both operands are ints \
+                mismatched lengths, non-numbers) + a stream of float pairs at the IEEE rounding boundaries for + - * / (exact \
+                ties and near-ties, binade carries, cancellation, subnormal results, underflow, the \
+                overflow threshold, signed zeros, infinities, NaN); a case is non-trivial unless both operands are ints \
                 below 2^31; distinct = distinct source texts"
         .into();
     let interp = Interp::new();
@@ -616,7 +730,7 @@ fn main() {
 
     let (n_cases, max_bits) = match args.tier.as_str() {
         "thorough" => (400_000usize, 700u64),
-        _ => (60_000usize, 300u64),
+        _ => (80_000usize, 300u64),
     };
     let pools = Pools { ints: special_ints(), rats: special_rats(), floats: special_floats(), max_bits };
     let mut rng = Rng::new(args.seed);
@@ -698,6 +812,25 @@ fn main() {
             cases.push(mk_bin("^", &VO::Num(a), &VO::Num(e), &mut rng));
         }
     }
+    // 3b. IEEE rounding of the float level: + - * / on operand pairs at the rounding boundaries
+    //     (the Spec column is the exact rational result rounded once, computed in Lean)
+    for _ in 0..(n_cases / 4) {
+        let (a, b) = float_pair(&mut rng, &pools);
+        let op = *rng.pick(&["+", "-", "*", "/", "+", "-", "*", "/", "%", "//", "%%"]);
+        let (mut va, mut vb) = (VO::Num(Val::Float(a)), VO::Num(Val::Float(b)));
+        // sometimes one operand is an exact number (conversion, then the float operation) or a vector
+        match rng.below(12) {
+            0 => va = VO::Num(pools.exact(&mut rng)),
+            1 => vb = VO::Num(pools.exact(&mut rng)),
+            2 => va = VO::Vec(vec![Val::Float(a), pools.exact(&mut rng), Val::Float(b)]),
+            _ => {}
+        }
+        cases.push(mk_bin(op, &va, &vb, &mut rng));
+    }
+    for _ in 0..(n_cases / 60) {
+        let (a, _) = float_pair(&mut rng, &pools);
+        cases.push(mk_un("neg", &VO::Num(Val::Float(a)), &mut rng));
+    }
     // 4. random objects (scalars, vectors, junk)
     while cases.len() < n_cases {
         if rng.chance(1, 4) {
@@ -731,6 +864,24 @@ fn main() {
             Outcome::Panic(_) => "panic",
             _ => "other",
         });
+        if let Outcome::Ok(v) = &out {
+            // what kind of float the real interpreter produced (coverage of the rounding boundaries)
+            if v == "f:nan" {
+                rep.outcome("float result: nan");
+            } else if let Some(h) = v.strip_prefix("f:") {
+                if let Ok(b) = u64::from_str_radix(h, 16) {
+                    let e = (b >> 52) & 0x7ff;
+                    let m = b & ((1 << 52) - 1);
+                    rep.outcome(match (e, m) {
+                        (0x7ff, _) => "float result: infinity",
+                        (0, 0) => "float result: zero",
+                        (0, _) => "float result: subnormal",
+                        (0x7fe, 0xf_ffff_ffff_ffff) => "float result: largest finite",
+                        _ => "float result: normal",
+                    });
+                }
+            }
+        }
         rust_out.push(out);
     }
     // the model
